@@ -247,6 +247,14 @@ fn main() {
                     // undetected: inherent class F8 iff the model, too, accepts the damaged bytes as intact
                     out.coq_case("known:F8", format!("N.eqb (outcome_validate (run_validate {})) 0", cf::bytes(&d)), json!({"what": "truncation undetected", "file": f, "len": k}), true);
                 }
+                // the index-level walk must agree with the per-file verdict: a truncation the file check detects (also the
+                // shortest ones, 0..11 bytes: shorter than the footer trailer) is reported -- by listing the file or by an error
+                if o != 0 && (k < 12 || k % 101 == 0) {
+                    let r = guarded(|| index.validate_checksum());
+                    let ok = match &r { Ok(Ok(s)) => s.iter().any(|x| x.to_string_lossy() == *f), Ok(Err(_)) => true, Err(_) => false };
+                    out.spec_checked(ok, json!({"what": "Index::validate_checksum reports a truncated committed file as healthy (or panics)", "file": f, "len": k, "orig_len": orig.len(), "per_file_outcome": o, "result": format!("{:?}", r)}));
+                    out.count("index_level_truncations", 1);
+                }
                 let oo = open_outcome(&md, p, &orig[..body_len]);
                 if oo == 4 { out.spec_checked(false, json!({"what": "truncated file makes open_read panic", "file": f, "len": k, "orig_len": orig.len(), "hex": cf::hex(&d[..d.len().min(64)])})); }
                 if small && coq_damage_budget > 0 && (k < 12 || k % 53 == 0) {
